@@ -4,6 +4,7 @@ import SaModel.Lemmas.C08ZooC
 import SaModel.Lemmas.C08ZooD
 import SaModel.Lemmas.C08ZooE
 import SaModel.Lemmas.C08Explore
+import SaModel.Lemmas.C08Loop
 /-
 C08 — tracing yields the documented mapping; from_type and from_samples agree.
 Model: SaModel/Trace/{Tracer,FromSamples,FromType}.lean.  Documented mapping: SaModel/Trace/Mapping.lean (`Spec.mapping`,
@@ -309,6 +310,64 @@ example :
     enumFree ty = true ∧ walkable {} "$" ty = true ∧
     enumFree (.map .string ty) = true ∧ walkable {} "$" (.map .string ty) = false ∧
     walkable { map_as_struct := false } "$" (.map .string ty) = true := by decide
+
+/-! ### enums: the multi-pass loop -/
+
+/-- `C08_pass_invariant`: the loop invariant of `Tracer::from_type`.  `after o n p nl k ty` (SaModel/Lemmas/C08After.lean)
+is the tracer after `k` passes, written down from the type: a fresh node for `k = 0`; for an enum node that has spent `b`
+passes the first variants are complete, one variant is partially explored with what is left of `b`, the rest is fresh
+(variant `i` is handed `b - Σ_{j<i} passes(payload j)` passes).  For EVERY type that can be walked (enums with all four
+variant kinds, nested enums included), at every position, a pass over the tracer of `k` passes is the tracer of `k + 1`
+passes: the pass explores the first incomplete variant of every enum node it meets, variant 0 again when all are
+complete (which changes nothing). -/
+theorem C08_pass_invariant (c : Code) (o : Options) (ty : Ty) (n p : String) (nl : Bool) (k : Nat)
+    (hw : walkable o p ty = true) :
+    explore c o (after o n p nl k ty) ty = .ok (after o n p nl (k + 1) ty) :=
+  explore_step c o ty n p nl k hw
+
+/-- the tracer is complete exactly from pass `passes ty` on (one pass per enum variant, sums over nested enums, maximum
+over siblings), and then it is the complete tracer `done` whose field is the documented mapping -/
+theorem C08_complete_iff (o : Options) (ty : Ty) (n p : String) (nl : Bool) (k : Nat) (hw : walkable o p ty = true) :
+    (after o n p nl k ty).is_complete = decide (passes ty ≤ k) ∧
+    (passes ty ≤ k → after o n p nl k ty = done o n p nl ty ∧
+      Agree ((after o n p nl k ty).to_field o) (mapping o n p nl ty)) := by
+  refine ⟨after_complete_iff o ty n p nl k hw, fun h => ?_⟩
+  have hpos := passes_pos o ty p hw
+  obtain ⟨k', rfl⟩ : ∃ k', k = k' + 1 := ⟨k - 1, by omega⟩
+  rw [after_done o ty n p nl k' hw h]
+  exact ⟨rfl, done_to_field o ty n p nl⟩
+
+/-- the loop with `b` passes left after `k` passes: the complete tracer when the budget suffices, the documented budget
+error otherwise -/
+theorem C08_loop (c : Code) (o : Options) (ty : Ty) (hw : walkable o "$" ty = true) (b k : Nat) :
+    fromTypeLoop c o ty b (after o "$" "$" false k ty) =
+      if passes ty ≤ k + b then .ok (done o "$" "$" false ty)
+      else fail "Could not determine schema from the type after {budget} iterations" :=
+  loop_after c o ty "$" "$" false hw b k
+
+/-- `C08_from_type`: for every type description that can be walked (no container beyond the depth limit, no map under
+`map_as_struct`, no enum without variants) and ALL options (budget, overwrites, every flag), `from_type` is the
+documented result: the same fields, or an error on both sides (budget too small, unknown overwrite path, overwrite with
+a wrong name, null-only field, root not a non-nullable struct, more than 128 variants). -/
+theorem C08_from_type (c : Code) (o : Options) (ty : Ty) (hw : walkable o "$" ty = true) :
+    Agree (fromType c o ty) (fromTypeSpec o ty) :=
+  fromType_walkable c o ty hw
+
+/-- fewer passes allowed than the type needs: exactly the budget error of the loop -/
+theorem C08_from_type_budget (c : Code) (o : Options) (ty : Ty) (hw : walkable o "$" ty = true)
+    (hb : o.from_type_budget < passes ty) :
+    fromType c o ty = fail "Could not determine schema from the type after {budget} iterations" := by
+  unfold fromType
+  rw [fromTypeTracer_walkable c o ty hw]
+  have : ¬ passes ty ≤ o.from_type_budget := by omega
+  simp only [this, if_false]; rfl
+
+/-- non-vacuity: a walkable type with nested enums that needs 10 passes; it succeeds with budget 10 and not with 9 -/
+example :
+    let o : Options := { allow_null_fields := true, from_type_budget := 10 }
+    let ty : Ty := .struct "S" (.cons "deep" tDeep .nil)
+    walkable o "$" ty = true ∧ passes ty = 10 ∧ (fromType .fixed o ty).isOk = true ∧
+    (fromType .fixed { o with from_type_budget := 9 } ty).isOk = false := by decide +kernel
 
 /-! ### the zoo: `from_type` = documented mapping = `from_samples` on covering samples (kernel evaluation) -/
 
